@@ -113,7 +113,13 @@ def build(cfg, workdir, perm_seed=None, perm_kinds=None):
             from topsim.core.delay import DelayModel
             rd = cfg["realDelay"]
             dm = DelayModel(rd["prob"], rd["dist"], DelayModel.DelayDegree[rd["degree"]], rd["seed"])
-        planning = S.HBatchPlanning(reg, dm)
+        if dm is not None and not cfg["realDelay"].get("viaSim"):
+            planning = S.HBatchPlanning(reg, dm)
+        else:
+            # one planning-model object (built without a delay model of its own)
+            # serves consecutive simulations of a process, as in a parameter sweep
+            planning = _POLICIES.setdefault("planning", S.HBatchPlanning(None, None))
+            planning.registry = reg
     # scheduling-policy objects are reused by consecutive runs of one process
     # (as an experiment loop would): they must not carry state between runs
     def policy(key, make):
@@ -144,10 +150,39 @@ def build(cfg, workdir, perm_seed=None, perm_kinds=None):
                                    prov=cfg.get("advProv", 0))
     else:
         raise ValueError(alg)
+    if cfg.get("decoy"):
+        _start_decoy(cfg, path, S)
+    # the simulation's own `delay` argument: the scripted stand-in, or (viaSim)
+    # a real DelayModel, which the batch planning model does not consult
+    simdelay = dm if (alg not in ("plan", "greedy") and dm is not None and cfg["realDelay"].get("viaSim")) \
+        else S.ScriptedDelayModel()
     sim = Simulation(env, path, Telescope, planning, 'batch', algo,
-                     delay=S.ScriptedDelayModel(), timestamp=0)
+                     delay=simdelay, timestamp=0)
     env.sim = sim
     return sim, env, reg, proposals
+
+
+_DECOYS = []
+
+
+def _start_decoy(cfg, path, S):
+    """a second, independent simulation of the same configuration that is
+    paused after cfg["decoy"] steps and stays alive while the traced one runs:
+    simulations in one process share nothing"""
+    import simpy
+    from topsim.core.simulation import Simulation
+    from topsim.user.telescope import Telescope
+    from topsim.user.schedule.queue_allocation import QueueProcessing
+    try:
+        d = Simulation(simpy.Environment(), path, Telescope, S.HBatchPlanning(S.PlanRegistry({}), None), 'batch',
+                       QueueProcessing(), delay=S.ScriptedDelayModel(), timestamp=0)
+        _DECOYS.append(d)
+        del _DECOYS[:-3]
+        d.start(runtime=cfg["decoy"])
+    except HarnessError:
+        raise
+    except Exception:       # the decoy's own fate is not under test
+        pass
 
 
 class HarnessError(BaseException):
